@@ -14,6 +14,7 @@ package core
 //@ macro idstr(p, c) = concat(dec(p), ":", c)
 
 //@ func ValidateCounterpartyID(id, protocol) (err)
+//@   ensures[C07] protocol == PROTOCOL_IBC && isChannelID(id) && id != "" && strlen(id) <= 32 ==> err == nil
 //@   ensures[C20] err == nil && (protocol == PROTOCOL_CCTP || protocol == PROTOCOL_HYPERLANE) ==> canonDomain(id)
 //@   ensures[C20] err == nil ==> id != "" && strlen(id) <= 32
 //@   ensures[C20] err == nil && protocol == PROTOCOL_IBC ==> isChannelID(id)
@@ -27,6 +28,7 @@ package core
 // the identifier (justified by the purity obligation: Validate reads nothing but its receiver).
 //@ func (i CrossChainID) Validate() (err)
 //@   pure-verdict vcc
+//@   ensures[C07] i.ProtocolId == PROTOCOL_IBC && isChannelID(i.CounterpartyId) && i.CounterpartyId != "" && strlen(i.CounterpartyId) <= 32 ==> err == nil
 //@   ensures[base] err == nil ==> i.ProtocolId > 0
 
 //@ func ParseCrossChainID(str) (id, err)
@@ -48,6 +50,7 @@ package core
 //@ func (id ProtocolID) Validate() (err)
 //@   pure-verdict okProto
 //@   ensures[base] err == nil ==> id > 0
+//@   ensures[C07] id == PROTOCOL_IBC ==> err == nil
 
 // An accepted action: non-nil, supported identifier, attributes present.
 //@ macro actionOK(a) = a != nil && okAction(a.Id) && a.Id != ACTION_UNSUPPORTED && a.Attributes != nil
